@@ -643,17 +643,21 @@ func (m *MonAuth) AfterBlock(s *Sim, req *BlockReq, res *BlockRes) {
 // forged transactions
 
 type c05Gen struct {
-	s   *Sim
-	d   *Driver
-	r   *rand.Rand
-	idx int
-	n   int
+	s     *Sim
+	d     *Driver
+	r     *rand.Rand
+	idx   int
+	n     int
+	slots bool
 }
 
 func (g *c05Gen) env(t tx.TxType, data interface{}, snd Senderish, signers []*Key, n c05Note) ([]byte, TxMeta) {
 	a := snd.Addr()
 	nonce := g.s.N.App.CurrentState().Accounts().GetNonce(a) + 1
 	sp := &TxSpec{Nonce: nonce, ChainID: types.CurrentChainID, GasPrice: 1, GasCoin: 0, Type: t, Data: data, Signer: snd.K, Multisig: snd.M, Signers: signers}
+	if g.r.Intn(2) == 0 {
+		sp.SignRand = g.r // a repeated signer then attaches a second, DIFFERENT valid signature (lead: added after seed C05-m2)
+	}
 	for _, k := range signers {
 		n.Signers = append(n.Signers, hex.EncodeToString(k.Addr[:]))
 	}
@@ -968,6 +972,35 @@ func (g *c05Gen) block(pOwn float64, maxTxs int) {
 		if i >= n {
 			return nil, TxMeta{}, false
 		}
+		if g.slots && g.r.Intn(3) == 0 && len(g.s.Gen.Candidates) > 0 {
+			// small delegations to the full candidate, around its smallest stakes (100..1100 BIP)
+			u := g.s.W.Users[g.r.Intn(len(g.s.W.Users))]
+			// values relative to the two smallest stakes s1 < s2: one above s2 (replaces s1 at the recalculation), one between
+			// s1 and s2 (accepted now, loses at the recalculation once the bigger one took the slot and must go to ITS owner's wait list)
+			val := Bip(int64(90 + g.r.Intn(400)))
+			for _, c := range g.s.Post.Candidates {
+				if c.PubKey == g.s.Gen.Candidates[0].PubKey && len(c.Stakes) >= 1000 {
+					var s1, s2 *big.Int
+					for _, st := range c.Stakes {
+						v := BI(st.BipValue)
+						if s1 == nil || v.Cmp(s1) < 0 {
+							s1, s2 = v, s1
+						} else if s2 == nil || v.Cmp(s2) < 0 {
+							s2 = v
+						}
+					}
+					if s1 != nil && s2 != nil && s2.Cmp(s1) > 0 {
+						if g.r.Intn(2) == 0 {
+							val = new(big.Int).Add(s2, Bip(int64(1+g.r.Intn(20))))
+						} else {
+							val = new(big.Int).Add(s1, new(big.Int).Div(new(big.Int).Sub(s2, s1), big.NewInt(int64(2+g.r.Intn(3)))))
+						}
+					}
+				}
+			}
+			b, m := g.env(tx.TypeDelegate, tx.DelegateDataV260{PubKey: g.s.Gen.Candidates[0].PubKey, Coin: 0, Value: val}, Senderish{K: u}, nil, c05Note{Forged: "rightful-small-delegation"})
+			return b, m, true
+		}
 		if g.r.Float64() < pOwn {
 			if b, m, ok := g.next(); ok {
 				return b, m, true
@@ -1009,6 +1042,14 @@ func init() {
 				sc = StdScenario(0, r, 70)
 			}
 			sc.Spec.Orders = 3 + r.Intn(6)
+			slots := idx%7 == 4 && sc.Family == "small"
+			if slots {
+				// a candidate whose 1000 delegation slots are full: delegations around the smallest stake get kicked to the
+				// wait list at the next recalculation - to the wait list of THEIR owner (lead: added after seed C05-m1)
+				sc.Spec.BigDelegators = 1000
+				sc.Opts.StakePeriod = 6
+				sc.Family = "slots"
+			}
 			mon := &MonAuth{Res: ctx.Res}
 			s, d := sc.Build("C05", ctx.Seed, idx, r, mon)
 			d.G.PInvalid, d.G.PBound = 0.25, 0.15
@@ -1016,6 +1057,7 @@ func init() {
 			d.PAbsentRun = 0.01
 			d.MaxTxs = 10
 			g := &c05Gen{s: s, d: d, r: Rng(ctx.Seed, "C05gen", idx), idx: idx}
+			g.slots = slots
 			for b := 0; b < sc.Blocks && !s.Dead && !s.Stopped; b++ {
 				g.block(0.35, 10)
 			}
